@@ -798,6 +798,10 @@ def unit_convert_sparsity(S):
     return u.defs
 
 
+KNOWN_WORK_SIZING = ["if (sparsity.symmetry != Symmetry::Unsymmetric) work.resize(sparsity.rows * sparsity.cols);",
+                     "if (permutation.size() > 0) work.resize(sparsity.nnz());"]
+
+
 def unit_ctor(S):
     name = "g_%s_ctor" % S.key
     m = list(re.finditer(r"(?<![\w:])SparsityConverter\s*\(\s*from_sparsity_t\s+from\s*,\s*Request(\s+request)?\s*=\s*\{\s*\}\s*\)", S.body))
@@ -807,6 +811,12 @@ def unit_ctor(S):
     inits_text = S.body[m[0].end():b].strip()
     e = sx.balanced(S.body, b, name)
     ast = ix.parse_body(S.body[b + 1:e], name)
+    # the size of the work buffer is not part of the model (its contents are written by the value provider before they are read),
+    # but the statements that size it are accounted for: exactly one of the known ones
+    known_work = [ix.parse_body(t, name)[0] for t in KNOWN_WORK_SIZING]
+    for st in ast:
+        if '"work"' in json.dumps(st, ensure_ascii=False) and st not in known_work:
+            raise OutOfGrammar("%s: statement on the work buffer other than the known sizing statements" % name)
     pre = []
     if inits_text:
         if not inits_text.startswith(":"):
